@@ -120,7 +120,7 @@ def project_batched(scn):
     evos, prev = [], 0
     for i, c in enumerate(list(scn.get('cuts') or []) + [len(muts)]):
         if c > prev:
-            evos.append({'label': 'e%d' % (i + 1),
+            evos.append({'label': spec.evo_label(i),
                          'mutations': muts[prev:c]})
         prev = c
     return {'apps': {'va': {'v0': scn['v0'], 'steps': [{'evos': evos}]}},
@@ -182,6 +182,8 @@ def features(scn):
     """Structural features of a sequence used to key known findings."""
     intro, gone = set(), set()
     reuse = False
+    kinds = set()
+    gone_models, recreated = set(), False
     touched_after_rename = False
     renamed = set()
     for m in scn['muts']:
@@ -192,20 +194,28 @@ def features(scn):
                      (m.get('field') or {}).get('name')]
             if any((model, n) in renamed for n in names if n):
                 touched_after_rename = True
+        if op == 'DeleteModel':
+            gone_models.add(model)
+        elif op == 'NewModel' and m['model']['name'] in gone_models:
+            recreated = True
         if op == 'AddField':
             key = (model, m['field']['name'])
             if key in gone:
                 reuse = True
+                kinds.add('delete_then_add')
             intro.add(key)
         elif op == 'DeleteField':
             key = (model, m['name'])
             if key in intro:
                 reuse = True
+                kinds.add('add_then_delete')
             gone.add(key)
         elif op == 'RenameField':
             old, new = (model, m['old']), (model, m['new'])
             if old in intro or new in gone:
                 reuse = True
+                kinds.add('rename_of_added' if old in intro
+                          else 'rename_to_freed')
             gone.add(old)
             intro.add(new)
             renamed.add(old)
@@ -239,6 +249,8 @@ def features(scn):
         'has_rename_field': 'RenameField' in ops,
         'has_rename_model': 'RenameModel' in ops,
         'name_reuse': reuse,
+        'reuse_kinds': sorted(kinds),
+        'model_recreated': recreated,
         'idx_ops': bool(re.search(
             r'db_index|unique|db_column|ChangeMeta|:type', ops)),
     }
